@@ -11,7 +11,9 @@
   by mode code; removed by `_remove_mode_event_handlers`), `cfg` = config-player handlers (removed by the mode's
   `stop_methods` in `_stopped`), `dev` = handlers mode devices register when they are enabled on `mode_<n>_started`
   (removed with the device in `_remove_mode_devices`);
-* user code of a mode (`addH`, `addSw`, `addDl`, a delay firing) may run at any time.
+* user code of a mode (`addH`, `addSw`, `addDl`, a delay firing) may run at any time; a delayed control event of a mode
+  device (`enable_events: {ev: 2s}` → `Mode._control_event_handler` → `self.delay.add(..., mode=self)`) is such an owned
+  delay (`addDl` when the event arrives, `fireDl` when it elapses), whichever `DelayManager` the implementation used.
 -/
 namespace MpfVerif.Mode
 
